@@ -200,6 +200,10 @@ class AsyncProtocol(Protocol, EventManager[PhysicalDevice]):
         await self.wait_until_done()
         if self.connected.is_set():
             await self._connection_close()
+        else:
+            # The task handling a lost connection may have been cancelled
+            # above before it got to close the transport.
+            await self.close_writer()
 
         await asyncio.gather(*(device.shutdown() for device in self.data.values()))
 
